@@ -4,6 +4,7 @@ from ..r_mdl import rule_record_loop, rule_v2000_books, rule_rxn_roles, rule_mrv
 from ..r_readers import rule_raise_family, MDL
 from ..r_reaction import rule_role_zip
 from ..r_hygiene import rule_hygiene as _rule_hygiene
+from ..r_mdl import rule_first_m_end as _rule_first_m_end
 from ..r_alias import rule_retry_flush as _rule_retry_flush
 
 LEVEL = 'other'
@@ -33,6 +34,7 @@ def run(ck, repo):
     rule_mrv_attributes(ck, repo, 'C11.D1-mrv-attributes')
     rule_role_zip(ck, repo, 'C11.D1-role-pairing', lambda f: f.module.name in ('chython.files.RDFrw', 'chython.files.MRVrw'), floor=3)
     _rule_hygiene(ck, repo, 'C11.H-dataflow-hygiene', 'C11')
+    _rule_first_m_end(ck, repo, 'C11.D3-first-m-end')
     _rule_retry_flush(ck, repo, 'C11.D5-retry-flush', ['chython.files.mdl.stereo'], 1)
     rule_rxn_drop_bookkeeping(ck, repo, 'C11.D1-dropped-component-bookkeeping')
     rule_star_point_lookup(ck, repo, 'C11.D3-star-point-lookup')
